@@ -259,10 +259,9 @@ type InhibitRule struct {
 	// Cache of alerts matching source labels.
 	scache *store.Alerts
 
-	// Index of fingerprints of source alert equal labels to fingerprint of source alert.
+	// Index of fingerprints of source alert equal labels to the fingerprints of the source alerts.
 	// The index helps speed up source alert lookups from scache significantely in scenarios with 100s of source alerts cached.
-	// The index items might overwrite eachother if multiple source alerts have exact equal labels.
-	// Overwrites only happen if the new source alert has bigger EndsAt value.
+	// All source alerts with the same equal labels are kept, as any of them that is firing inhibits.
 	sindex *index
 }
 
@@ -343,54 +342,27 @@ func (r *InhibitRule) fingerprintEquals(lset model.LabelSet) model.Fingerprint {
 	return equalSet.Fingerprint()
 }
 
-// updateIndex updates the source alert index if necessary.
+// updateIndex adds the source alert to the index of its equal labels.
 func (r *InhibitRule) updateIndex(alert *types.Alert) {
-	fp := alert.Fingerprint()
-	// Calculate source labelset subset which is in equals.
-	eq := r.fingerprintEquals(alert.Labels)
-
-	// Check if the equal labelset is already in the index.
-	indexed, ok := r.sindex.Get(eq)
-	if !ok {
-		// If not, add it.
-		r.sindex.Set(eq, fp)
-		return
-	}
-	// If the indexed fingerprint is the same as the new fingerprint, do nothing.
-	if indexed == fp {
-		return
-	}
-
-	// New alert and existing index are not the same, compare them.
-	existing, err := r.scache.Get(indexed)
-	if err != nil {
-		// failed to get the existing alert, overwrite the index.
-		r.sindex.Set(eq, fp)
-		return
-	}
-
-	// If the new alert resolves after the existing alert, replace the index.
-	if existing.ResolvedAt(alert.EndsAt) {
-		r.sindex.Set(eq, fp)
-		return
-	}
-	// If the existing alert resolves after the new alert, do nothing.
+	r.sindex.Add(r.fingerprintEquals(alert.Labels), alert.Fingerprint())
 }
 
-// findEqualSourceAlert returns the source alert that matches the equal labels of the given label set.
-func (r *InhibitRule) findEqualSourceAlert(lset model.LabelSet, now time.Time) (*types.Alert, bool) {
-	equalsFP := r.fingerprintEquals(lset)
-	sourceFP, ok := r.sindex.Get(equalsFP)
-	if ok {
+// findEqualSourceAlert returns a source alert that is firing at now and has
+// the same equal labels as the given label set. If excludeTwoSidedMatch is
+// true, source alerts that also match the target side of the rule are
+// disregarded.
+func (r *InhibitRule) findEqualSourceAlert(lset model.LabelSet, excludeTwoSidedMatch bool, now time.Time) (*types.Alert, bool) {
+	for _, sourceFP := range r.sindex.Get(r.fingerprintEquals(lset)) {
 		alert, err := r.scache.Get(sourceFP)
 		if err != nil {
-			return nil, false
+			continue
 		}
-
 		if alert.ResolvedAt(now) {
-			return nil, false
+			continue
 		}
-
+		if excludeTwoSidedMatch && r.TargetMatchers.Matches(alert.Labels) {
+			continue
+		}
 		return alert, true
 	}
 
@@ -399,8 +371,7 @@ func (r *InhibitRule) findEqualSourceAlert(lset model.LabelSet, now time.Time) (
 
 func (r *InhibitRule) gcCallback(alerts []*types.Alert) {
 	for _, a := range alerts {
-		fp := r.fingerprintEquals(a.Labels)
-		r.sindex.Delete(fp)
+		r.sindex.Remove(r.fingerprintEquals(a.Labels), a.Fingerprint())
 	}
 }
 
@@ -409,12 +380,8 @@ func (r *InhibitRule) gcCallback(alerts []*types.Alert) {
 // is returned. If excludeTwoSidedMatch is true, alerts that match both the
 // source and the target side of the rule are disregarded.
 func (r *InhibitRule) hasEqual(lset model.LabelSet, excludeTwoSidedMatch bool, now time.Time) (model.Fingerprint, bool) {
-	equal, found := r.findEqualSourceAlert(lset, now)
-	if found {
-		if excludeTwoSidedMatch && r.TargetMatchers.Matches(equal.Labels) {
-			return model.Fingerprint(0), false
-		}
-		return equal.Fingerprint(), found
+	if equal, found := r.findEqualSourceAlert(lset, excludeTwoSidedMatch, now); found {
+		return equal.Fingerprint(), true
 	}
 
 	return model.Fingerprint(0), false
